@@ -19,8 +19,10 @@
      - C15_run_terminates: with no user operation between passes and ANY decisions (Copy / Ignore /
        Destroy, any map iteration order of the immovable blocks) the lexicographic measure
        (BlockCount - immovableBlockCount, sum of block indices, sum of offsets) strictly decreases
-       with every pass that proposes a move, so every run reaches a pass that proposes nothing
-       (or a collecting pass panics: see OPEN in DefragProofs.v — a completing pass cannot fail).
+       with every pass that proposes a move; C15_run_completes: such a run never fails (no panic in
+       collect: not in incrementCounters, not on a metadata answer, the model's fuel suffices; no
+       handler failure in complete) and ends in a pass that proposes nothing, with the block list
+       invariant intact.
      - C15_reused_context_is_fresh: Init leaves a used context object with exactly the fields of a
        brand-new one, so every pass and run computed from it is the same.
    What remains for the vam wrapper (vam/defrag.go: DefragmentationContext.blockListProgress over
@@ -101,6 +103,18 @@ Theorem C15_run_terminates : forall st c mb ma dec acc n log,
 Proof. exact run_terminates. Qed.
 Print Assumptions C15_run_terminates.
 
+Theorem C15_collect_never_panics : forall st c mb ma,
+  WF st -> c_moves c = [] -> 0 <= ma -> 0 <= mb -> (c_algo c = 1 \/ c_algo c = 2) ->
+  forall w, snd (collect_moves st c (pass_init mb ma)) <> WPanic w.
+Proof. exact collect_never_panics. Qed.
+Print Assumptions C15_collect_never_panics.
+
+Theorem C15_run_completes : forall st c mb ma dec acc n log,
+  WF st -> c_moves c = [] -> 0 <= c_immovable c -> 0 <= ma -> 0 <= mb -> (c_algo c = 1 \/ c_algo c = 2) ->
+  exists fuel st' k acc' log', run_any fuel st c mb ma dec acc n log = RunDone st' k acc' log' /\ WF st'.
+Proof. exact run_completes. Qed.
+Print Assumptions C15_run_completes.
+
 Theorem C15_reused_context_is_fresh : forall c0 algo,
   ctx_init c0 algo = ctx_fresh algo /\
   c_algo (ctx_init c0 algo) = c_algo (ctx_fresh algo) /\
@@ -129,7 +143,7 @@ Example C15_nonvacuous :
   | RunDone _ passes acc log => passes = 1%nat /\ ps_allocs_moved acc = 3 /\ ps_bytes_moved acc = 450
   | _ => False
   end.
-Proof. exact (conj ex_world_wf (conj ex_collect_three ex_run_done)). Qed.
+Proof. split; [exact ex_world_wf|split; [exact ex_collect_three|exact ex_run_done]]. Qed.
 
 Example C15_reused_context_nonvacuous :
   match reuse_after_run1 with
